@@ -153,6 +153,7 @@ def run(rep, tier):
     rep.rule('R04.6', 'skeleton agreement: the event/phase skeleton of the emitted uscxml_step equals the fast engine\'s (callbacks through on_exit/on_entry/on_transition/invoke/raise_done_event, ctx->config updates)')
     rep.rule('R04.7', 'index width provenance: the type chosen for the loop variables i, j, k can hold both loop bounds of every emitted machine, i.e. it is selected from the same maxima the two *_TYPE macros come from')
     rep.assume('same trace as the interpreter per chart, per-document tables (C05) and the executable-content functions are not decided here')
+    rep.rule('R04.11', 'sibling agreement: every set test (operands + polarity) and every set update (operation, destination, source) of the emitted C step function occurs equally often in the emitted Promela step (same comparison as C06 R06.2 / R06.4, seen from the C side)')
     rep.rule('R04.10', 'history default: the emitted step function takes a history state\'s default transition exactly when nothing is remembered (like the engines, C01 R01.16)')
     rep.rule('R04.9', 'set-valued completion: the emitted loop that adds the ancestors of a compound\'s deep completion visits every completion member (an initial attribute may name states in several regions), like the interpreter')
     rep.rule('R04.8', 'the tables the emitted machine is driven by are defined like the interpreter\'s: conflict relation with all terms of the definition (same rule as C05 R05.4), history completion like both engines (C05 R05.6), transition domain / LCCA quantifier shape (C05 R05.5)')
@@ -389,6 +390,10 @@ def run(rep, tier):
     rep.check(not own_sizes, 'R04.7', 'writeFSM|index type', locstr(o), 'the type of i, j, k is chosen by comparing %s; the USCXML_NR_*_TYPE macros are sized from the maxima over all machines: %s' % (
         sorted(n_ for n_ in names if n_.startswith('_') or 'largest' in n_), 'consistent' if not own_sizes else 'INCONSISTENT - with a nested machine that has more transitions than the chosen type can count, the emitted loops over its transitions cannot terminate'))
 
+    # ---- R04.11 the emitted C step function and the emitted Promela step are the same bit-set algorithm
+    from . import C06
+    fbs = facts.FactBase(C06.TUS)
+    C06.compare_siblings(rep, fbs, 'R04.11', 'R04.11')
     # ---- R04.10 history default in the emitted step function
     for alt, cg in cgs.items():
         hn, hd = _skel_mod().history_default_condition(cg.fn('uscxml_step'))
